@@ -141,6 +141,15 @@ def run_net(net, blocked=None, maxsteps=100000):
         c = [ch for ch in net.deliverable() if not (blocked and blocked(ch[0]))]
         if not c:
             return n
+        l, what = c[0]
+        if not isinstance(what, tuple):
+            # one segment = everything written so far in that direction (up to a FIN): far fewer, larger deliveries
+            q = l.q[what]
+            k = 0
+            while k < len(q) and q[k] is not None:
+                k += 1
+            if k > 1:
+                q[:k] = [b"".join(q[:k])]
         net.step(c[0])
         n += 1
         if n > maxsteps:
@@ -510,3 +519,314 @@ def reconnect(ctx, pid):
                             continue
                         ctx.fail(sig, text, replay=dict(scenario="reconnect: proxies of an earlier connection to the same Tub are sent home / "
                                                         "called / used as targets after reconnection", nx=nx, ny=ny, handler=handler))
+
+
+# ------------------------------------------------------------------------------------------------------------
+# SEVERAL gifts inside one container / one call, the carrying message split at every byte position, the introductions
+# completing in every order the links allow (gifts from two owners: A-first / D-first)
+class Factory(Referenceable):
+    """lives on an owner Tub; what it makes is kept alive only by the references other Tubs hold"""
+
+    def __init__(self, tag):
+        self.tag = tag
+        self.made = {}
+
+    def remote_make(self, n):
+        import weakref
+        t = Thing("%s%d" % (self.tag, n))
+        self.made[t.name] = weakref.ref(t)
+        return t
+
+
+class GiftSink(Referenceable):
+    def __init__(self):
+        self.seen = []
+
+    def _flat(self, x, out):
+        if isinstance(x, dict):
+            for k in sorted(x, key=repr):
+                self._flat(x[k], out)
+        elif isinstance(x, (list, tuple, set, frozenset)):
+            for y in x:
+                self._flat(y, out)
+        else:
+            out.append(x)
+        return out
+
+    def remote_take(self, container):
+        # what the argument looks like AT THE MOMENT the method is invoked
+        self.seen.append((type(container).__name__, self._flat(container, [])))
+        return len(self.seen)
+
+    def remote_take3(self, a, b, c=None):
+        self.seen.append(("args", self._flat([a, b, c], [])))
+        return len(self.seen)
+
+
+CONTAINERS = {
+    "list": lambda g: ("take", [list(g)], {}),
+    "tuple": lambda g: ("take", [tuple(g)], {}),
+    "set": lambda g: ("take", [set(g)], {}),
+    "dict": lambda g: ("take", [{i: x for i, x in enumerate(g)}], {}),
+    "args": lambda g: ("take3", list(g[:3]), {}),
+    "kwargs": lambda g: ("take3", [], dict(zip("abc", g[:3]))),
+    "nested": lambda g: ("take", [{"k": [g[0], (g[1],)], "rest": list(g[2:])}], {}),
+    "list+plain": lambda g: ("take", [[1, g[0], "x", g[1]] + list(g[2:])], {}),
+}
+CONTAINER_TYPE = {"list": "list", "tuple": "tuple", "set": "set", "dict": "dict", "args": "args", "kwargs": "args", "nested": "dict",
+                  "list+plain": "list"}
+
+
+class GiftWorld:
+    """four Tubs: owners A and D, gifter B, recipient C; all connections exist before the gifts are sent"""
+
+    def __init__(self):
+        from foolscap.referenceable import RemoteReference
+        E.reset_clock()
+        self.net = net = Net()
+        pems = [p for _, p in pems_sorted(4)]
+        self.A, self.B, self.C, self.D = [make_tub(net, n, pems[i]) for i, n in enumerate("abcd")]
+        self.facA, self.facD, self.sink = Factory("a"), Factory("d"), GiftSink()
+        fa, fd, fc = self.A.registerReference(self.facA), self.D.registerReference(self.facD), self.C.registerReference(self.sink)
+        got = {}
+        for k, tub, f in (("fa", self.B, fa), ("fd", self.B, fd), ("sink", self.B, fc), ("ca", self.C, fa), ("cd", self.C, fd)):
+            tub.getReference(f).addCallback(lambda r, k=k: got.setdefault(k, r))
+        run_net(net)
+        self.ok = all(isinstance(got.get(k), RemoteReference) for k in ("fa", "fd", "sink", "ca", "cd"))
+        self.got = got
+        self.n = 0
+
+    def link(self, t1, t2):
+        for l in self.net.links:
+            if {getattr(l, "client_tub", None), getattr(l, "server_tub", None)} == {t1, t2} and not any(e.closed for e in l.ends):
+                return l
+        return None
+
+    def make(self, owners):
+        out = []
+        for o in owners:
+            self.n += 1
+            out.append(_call(self.net, self.got["fa" if o == "a" else "fd"], "make", self.n))
+        return out
+
+    def send(self, kind, owners, split, order):
+        """B sends `kind` holding one gift per entry of owners; the carrying message reaches C in two segments cut at byte
+        `split` (None: one piece); between and after the segments the C<->A and C<->D links run in `order`.
+        -> (problems, message length)"""
+        from foolscap.referenceable import RemoteReference
+        net, B, C = self.net, self.B, self.C
+        gifts = self.make(owners)
+        if not all(isinstance(g, RemoteReference) for g in gifts):
+            return [("oracle/gift-setup-failed", "factory returned %r" % (gifts,))], 0
+        names = []
+        for o in owners:
+            pass
+        for k, o in enumerate(owners):
+            fac = self.facA if o == "a" else self.facD
+            nm = "%s%d" % (o, self.n - len(owners) + 1 + k)
+            t = fac.made[nm]()
+            names.append([nm, id(t)] if t is not None else None)
+            del t
+        meth, args, kw = CONTAINERS[kind](gifts)
+        nsent = len([1 for x in GiftSink()._flat(list(args) + list(kw.values()), []) if isinstance(x, RemoteReference)])
+        bc = self.link(B, C)
+        side = 0 if bc.client_tub is B else 1
+        before = len(self.sink.seen)
+        res = []
+        self.got["sink"].callRemote(meth, *args, **kw).addBoth(res.append)
+        E.turn()
+        data = b"".join(x for x in bc.q[side] if x is not None)
+        bc.q[side] = [data]
+        links = {"a": self.link(C, self.A), "d": self.link(C, self.D)}
+
+        def others():
+            # everything except the carrying link, introductions in the requested order
+            for rounds in range(50):
+                moved = 0
+                for o in order:
+                    moved += run_net(net, lambda l: l is not links[o])
+                moved += run_net(net, lambda l: l is bc)
+                if not moved:
+                    return
+        if split is not None and 0 < split < len(data):
+            net.step((bc, side), split)
+            others()
+        run_net(net, lambda l: l is not bc)
+        others()
+        run_net(net)
+        for i in range(3):
+            if res:
+                break
+            E.clock.advance(130)
+            run_net(net)
+        cfg = "%d gifts (owners %s) in %s, message of %d bytes cut at %r, introductions run in order %s" % (
+            len(gifts), "".join(owners), kind, len(data), split, "".join(order))
+        problems = []
+        seen = self.sink.seen[before:]
+        if len(res) != 1 or not isinstance(res[0], int) or len(seen) != 1:
+            problems.append(("oracle/gift-not-delivered", "the call carrying the gifts did not complete exactly once: answers %r, "
+                             "invocations %d; %s" % ([getattr(r, "value", r) for r in res], len(seen), cfg)))
+        else:
+            ctype, items = seen[0]
+            proxies = [x for x in items if isinstance(x, RemoteReference)]
+            junk = [x for x in items if not isinstance(x, RemoteReference) and x not in (1, "x", None)]
+            if junk or len(proxies) != nsent or ctype != CONTAINER_TYPE[kind]:
+                problems.append(("oracle/gift-identity-lost", "the recipient's method was invoked with %s %r instead of %d proxies; %s"
+                                 % (ctype, [type(x).__name__ + ":" + repr(x)[:60] for x in items], nsent, cfg)))
+            who = [_call(net, p, "whoami") for p in proxies]
+            reached = sorted(tuple(r) if isinstance(r, list) else ("?",) for r in who)
+            want = sorted(tuple(nm) for nm in names[:nsent] if isinstance(nm, list))
+            if kind != "set" and len(set(map(tuple, want))) == len(want) and reached != want and not junk:
+                problems.append(("oracle/call-misrouted", "calls through the recipient's proxies reached %r, the originals are %r; %s"
+                                 % (reached, want, cfg)))
+            elif kind == "set" and set(reached) != set(want) and not junk:
+                problems.append(("oracle/call-misrouted", "calls through the recipient's proxies reached %r, the originals are %r; %s"
+                                 % (reached, want, cfg)))
+            # same original -> same proxy inside one delivery
+            byname = {}
+            for p, r in zip(proxies, who):
+                if isinstance(r, list):
+                    byname.setdefault(tuple(r), set()).add(id(p))
+            if any(len(v) > 1 for v in byname.values()):
+                problems.append(("oracle/gift-different-proxy-while-held", "one original arrived as several proxies in one call; " + cfg))
+            del proxies, items
+        del self.sink.seen[before:]
+        del gifts, args, kw, seen
+        if self.n % 40 < len(owners):
+            gc.collect()
+        run_net(net)
+        return problems, len(data)
+
+    def close(self):
+        for t in (self.A, self.B, self.C, self.D):
+            t.stopService()
+        E.turn()
+
+
+def multi_gifts(ctx):
+    """every container kind x owner pattern x every cut position of the carrying message x both introduction orders
+    (quick: every 3rd cut position for the secondary owner patterns)"""
+    # the cyclic collector must not run at arbitrary allocation points here: a proxy collected inside task.Clock's
+    # sort of its call list fires _refLost -> eventually() -> callLater and the fake clock raises "list modified during
+    # sort" (an artefact of the virtual clock, not of foolscap).  Collection happens at explicit points instead.
+    gc.disable()
+    try:
+        _multi_gifts(ctx)
+    finally:
+        gc.enable()
+
+
+def _multi_gifts(ctx):
+    with quiet():
+        try:
+            W = GiftWorld()
+        except Exception:
+            import traceback
+            ctx.fail("oracle/gift-exception", "multi-gift setup raised: %s" % traceback.format_exc()[-800:], replay=dict(scenario="multi-gift"))
+            return
+        if not W.ok:
+            ctx.fail("oracle/gift-setup-failed", "multi-gift world could not be set up: %r" % (sorted(W.got),), replay=dict(scenario="multi-gift"))
+            return
+        seen_sigs = set()
+        n = 0
+        patterns = [("aa", ctx.n(3, 1)), ("ad", ctx.n(3, 1)), ("ada", ctx.n(7, 1)), ("aad", ctx.n(11, 1)), ("dd", ctx.n(11, 1))]
+        for kind in CONTAINERS:
+            for owners, stride in patterns:
+                if kind in ("nested",) and len(owners) < 3:
+                    continue
+                try:
+                    _, length = W.send(kind, list(owners), None, "ad")
+                except Exception:
+                    import traceback
+                    ctx.fail("oracle/gift-exception", "multi-gift scenario raised: %s" % traceback.format_exc()[-800:],
+                             replay=dict(scenario="multi-gift", kind=kind, owners=owners))
+                    return
+                for order in ("ad", "da"):
+                    # quick tier: a residue class of cut positions that differs per (kind, owners, order), so that the classes
+                    # of all combinations together cover every offset; thorough: every position
+                    off = (len(kind) + len(owners) + (order == "da")) % stride
+                    for split in [None] + list(range(1 + off, length, stride)):
+                        try:
+                            problems, _ = W.send(kind, list(owners), split, order)
+                        except Exception:
+                            import traceback
+                            problems = [("oracle/gift-exception", "multi-gift scenario raised: %s" % traceback.format_exc()[-800:])]
+                        n += 1
+                        ctx.case(["multigift", kind, owners, split, order], nontrivial=split is not None)
+                        ctx.hist("multigift_outcome", "held" if not problems else problems[0][0])
+                        ctx.hist("multigift_kind", kind)
+                        for sig, text in problems:
+                            if sig not in seen_sigs:
+                                seen_sigs.add(sig)
+                                ctx.fail(sig, text, replay=dict(scenario="multi-gift: several gifts in one container, carrying message cut, "
+                                                                "introduction order", kind=kind, owners=owners, split=split, order=order))
+                        if any(s == "oracle/gift-exception" for s, _ in problems):
+                            return
+        ctx.extra["multigift_cases"] = n
+        try:
+            W.close()
+        except Exception:
+            pass
+
+
+# ------------------------------------------------------------------------------------------------------------
+# util.AsyncAND, the barrier behind "a container is delivered when all its gifts are introduced": direct oracle and
+# correspondence with the model (Refs.aand_new / aand_complete) on every mixture of fired / pending inputs up to length 4
+def asyncand_cases():
+    import itertools
+    from twisted.internet import defer
+    from foolscap.util import AsyncAND
+    out = []
+    for n in range(0, 5):
+        for flags in itertools.product([True, False], repeat=n):
+            npend = flags.count(False)
+            for rev in (False, True):
+                ds = [defer.Deferred() for f in flags]
+                for d, f in zip(ds, flags):
+                    if f:
+                        d.callback(1)
+                a = AsyncAND(ds)
+                fired = [bool(a.called)]
+                pend = [d for d, f in zip(ds, flags) if not f]
+                if rev:
+                    pend.reverse()
+                for d in pend:
+                    d.callback(1)
+                    fired.append(bool(a.called))
+                out.append((list(flags), rev, fired))
+    return out
+
+
+def asyncand_check(ctx, model_ok):
+    from harness import common
+    cases = asyncand_cases()
+    for flags, rev, fired in cases:
+        npend = flags.count(False)
+        want = [j == npend for j in range(npend + 1)]
+        ctx.case(["asyncand", flags, rev], nontrivial=len(flags) >= 2 and 0 < npend < len(flags))
+        if fired != want:
+            ctx.fail("oracle/gift-barrier-fired-early", "AsyncAND over inputs %r (True = already fired when subscribed; pending ones fired "
+                     "%s) reported fired=%r after 0..%d completions; a container holding gifts would be delivered before all of them "
+                     "are introduced" % (flags, "last-first" if rev else "in order", fired, npend),
+                     replay=dict(inputs=flags, reverse=rev, fired=fired))
+    if not model_ok:
+        return
+    rows = sorted(set((tuple(f), j) for f, rev, fired in cases for j in range(len(fired))))
+    body = ("Eval vm_compute in map (fun c => aa_fired (aand_complete (aand_new asyncand_init (fst c)) (snd c))) %s.\n"
+            % common.coq_list(["(%s, %d%%nat)" % (common.coq_list([common.coq_bool(b) for b in f]) if f else "(@nil bool)", j) for f, j in rows]))
+    try:
+        (vals,) = ctx.coq_eval("C08_asyncand_cases", body, requires=["Verif.lib.PyLite", "Verif.gen.RefsGen", "Verif.lib.Refs"])
+    except common.CoqEvalError as e:
+        ctx.fail("correspondence-broken", "aand_new could not be evaluated: " + str(e)[-800:], has_input=False)
+        return
+    model = dict(zip(rows, vals))
+    bad = 0
+    for flags, rev, fired in cases:
+        for j, f in enumerate(fired):
+            ctx.traces += 1
+            if model[(tuple(flags), j)] != f:
+                bad += 1
+                if bad == 1:
+                    ctx.fail("correspondence/asyncand", "inputs %r after %d completions: model fired=%r, AsyncAND fired=%r"
+                             % (flags, j, model[(tuple(flags), j)], f), replay=dict(inputs=flags, j=j), has_input=False)
+    ctx.extra["asyncand_cases"] = len(cases)
